@@ -867,6 +867,51 @@ def enumerated_json_mutants(doc: Any, cap: int) -> List[Tuple[Any, str]]:
     return out
 
 
+XML_TEXT_MENU = ["", " ", "abc", "1", "0", "true", "TRUE", "1.5", " 1 ", "1e400", "-INF", "NaN", "nan", "0x10", "1_0", "\u0661", "QUJD", "QUJ", "é", "====", "\n"]
+
+
+def enumerated_xml_mutants(text: str, cap: int) -> List[Tuple[str, str]]:
+    """Seed-independent systematic single edits of an XML document: every element × (text menu, attribute, tail text,
+    renamed, other/no namespace, dropped, duplicated, extra child, children reversed)."""
+    import copy
+    import xml.etree.ElementTree as ET
+
+    root0 = ET.fromstring(text)
+    ns = root0.tag[1:].split("}", 1)[0] if root0.tag.startswith("{") else ""
+    if ns:
+        ET.register_namespace("", ns)
+    n = len(list(root0.iter()))
+    out: List[Tuple[str, str]] = []
+
+    def variant(i: int, edit: Any, label: str) -> None:
+        root = copy.deepcopy(root0)
+        elems = list(root.iter())
+        parents = {c: p for p in elems for c in p}
+        el = elems[i]
+        if edit(el, parents.get(el)) is False:
+            return
+        out.append((ET.tostring(root, encoding="unicode"), f"{label}@{i}"))
+
+    def local(tag: str) -> str:
+        return tag.rsplit("}", 1)[-1]
+
+    for i in range(n):
+        for k, t in enumerate(XML_TEXT_MENU):
+            variant(i, lambda el, p, t=t: setattr(el, "text", t), f"text{k}")
+        variant(i, lambda el, p: el.set("unexpected", "1"), "attribute")
+        variant(i, lambda el, p: setattr(el, "tail", "tail text"), "tail")
+        variant(i, lambda el, p: setattr(el, "tag", ("{%s}" % ns if ns else "") + local(el.tag) + "X"), "renamed")
+        variant(i, lambda el, p: setattr(el, "tag", "{https://example.com/other}" + local(el.tag)), "other_ns")
+        variant(i, lambda el, p: (p.remove(el) if p is not None else False), "dropped")
+        variant(i, lambda el, p: (p.insert(list(p).index(el), copy.deepcopy(el)) if p is not None else False), "duplicated")
+        variant(i, lambda el, p: el.append(ET.Element(("{%s}" % ns if ns else "") + "unexpectedElement")), "extra_child")
+        variant(i, lambda el, p: (el[:] if len(el) < 2 else el.__setitem__(slice(None), list(reversed(list(el))))) if len(el) >= 2 else False, "reversed")
+    if len(out) > cap:
+        step = len(out) / cap
+        out = [out[int(j * step)] for j in range(cap)]
+    return out
+
+
 B64_ALPHA = "ABCZabcz0189+/"
 
 
@@ -1079,6 +1124,12 @@ def check_model(ctx: Ctx, m: Model, budget: Budget, with_model: bool, enumerated
             if built.instance is None:
                 break
             instances.append((cname, m.val_wire(built.instance)))
+    if m.label == "fixed:shapes":
+        holder = m.sdk.types.PlainURLHolder(
+            some_url="x" * 17000 + "\r&<>]]>" + "é" * 5000, numbers=list(range(2500)), ratios=[0.5] * 700, flags=[True, False] * 300,
+            blobs=[bytes([i % 256] * (i % 7)) for i in range(400)], names=["n%d\r\n" % i for i in range(1500)])
+        instances.append(("Plain_URL_holder", m.val_wire(holder)))
+        ctx.hit("instance:larger-than-one-iterparse-chunk")
     seen = set()
     for declared, wire in instances:
         if wire in seen:
@@ -1105,7 +1156,10 @@ def check_model(ctx: Ctx, m: Model, budget: Budget, with_model: bool, enumerated
         # --- mutants of the JSON document
         through = declared if declared in throughs else meta
         mutants: List[Tuple[Any, str]] = []
-        if enumerated:
+        big = wire.count(",") > 3000
+        if big:
+            mutants += [(dict(doc, numbers=doc["numbers"] + [True]), "big:bool-item"), (dict(doc, blobs=doc["blobs"] + ["é"]), "big:non-ascii-base64")]
+        elif enumerated:
             mutants += enumerated_json_mutants(doc, budget.enum_cap // max(1, len(instances)))
         else:
             for _ in range(max(1, budget.json_mutants // max(1, len(instances)))):
@@ -1136,10 +1190,13 @@ def check_model(ctx: Ctx, m: Model, budget: Budget, with_model: bool, enumerated
                 xml = None
             if xml is not None:
                 texts: List[Tuple[str, str]] = []
-                if enumerated:
+                if big:
+                    texts += [(xml[: len(xml) // 2], "big:truncate"), (xml.replace("<v>0.5</v>", "<v>x</v>", 1), "big:wrong-text")]
+                elif enumerated:
                     texts += [(xml[:cut], "truncate") for cut in sorted({0, 1, len(xml) // 3, len(xml) // 2, len(xml) - 1})]
                     texts += [("", "empty"), ("<", "garbage"), ("not xml", "garbage"), ("<a><b></a></b>", "garbage"), (xml + "<x/>", "trailing")]
-                for _ in range(max(1, budget.xml_mutants // max(1, len(instances)))):
+                    texts += enumerated_xml_mutants(xml, budget.enum_cap // max(1, len(instances)))
+                for _ in range(0 if big else max(1, budget.xml_mutants // max(1, len(instances)))):
                     texts.append(MMP.mutate_xml(xml, rng))
                 for mtext, label in texts:
                     ctx.count((m.label, through, mtext), stream=f"{stream_prefix}-xml-mutants")
